@@ -8,21 +8,25 @@ EXTENDS AuthProp, Json, IOUtils, Integers
 Log == ndJsonDeserialize(IOEnv.VERIF_TRACE)
 VARIABLES l,      \* next line
           tid,    \* id of the current trace
-          badl    \* line at which `bad` was latched
+          badl,   \* line at which `bad` was latched
+          alls    \* every <<line, violated obligation>> of the current trace (bad keeps only the first)
 Ev == Log[l]
 Mark == badl' = IF bad = "" /\ bad' # "" THEN l ELSE badl
-TInit == PInit /\ l = 1 /\ tid = "" /\ badl = 0
+TInit == PInit /\ l = 1 /\ tid = "" /\ badl = 0 /\ alls = {}
 TNext ==
   /\ l <= Len(Log)
   /\ l' = l + 1
-  /\ \/ Ev.ev = "reset" /\ PReset(Ev.tls) /\ tid' = Ev.trace /\ badl' = 0
+  /\ \/ Ev.ev = "reset" /\ PReset(Ev.tls) /\ tid' = Ev.trace /\ badl' = 0 /\ alls' = {}
      \/ Ev.ev = "msg" /\ PMsg(Ev.to, Ev.scheme, Ev.owners) /\ Mark /\ UNCHANGED tid
-     \/ Ev.ev = "challenge" /\ PChallenge(Ev.from, Ev.realm) /\ UNCHANGED <<tid, badl>>
+        /\ alls' = alls \cup {<<l, x>> : x \in MsgBads(Ev.to, Ev.scheme, Ev.owners)}
+     \/ Ev.ev = "challenge" /\ PChallenge(Ev.from, Ev.realm) /\ UNCHANGED <<tid, badl, alls>>
      \/ Ev.ev = "log" /\ PLog(Ev.owners) /\ Mark /\ UNCHANGED tid
-     \/ Ev.ev \in {"logdone", "redirect"} /\ PNote /\ UNCHANGED <<tid, badl>>
-     \/ Ev.ev = "done" /\ PNote /\ UNCHANGED <<tid, badl>>
-        /\ (bad # "" => PrintT(<<"REJECT", tid, badl, bad>>))
-TSpec == TInit /\ [][TNext]_<<pvars, l, tid, badl>>
+        /\ alls' = alls \cup {<<l, x>> : x \in LogBads(Ev.owners)}
+     \/ Ev.ev \in {"logdone", "redirect"} /\ PNote /\ UNCHANGED <<tid, badl, alls>>
+     \/ Ev.ev = "done" /\ PNote /\ UNCHANGED <<tid, badl, alls>>
+        /\ (bad # "" => PrintT(<<"FIRST", tid, badl, bad>>))
+        /\ \A x \in alls : PrintT(<<"REJECT", tid, x[1], x[2]>>)
+TSpec == TInit /\ [][TNext]_<<pvars, l, tid, badl, alls>>
 HW == TLCSet(1, IF TLCGet(1) > l THEN TLCGet(1) ELSE l)
 Accepted == PrintT(<<"HIGHWATER", TLCGet(1), Len(Log)>>)
 ASSUME TLCSet(1, 0)
